@@ -100,7 +100,7 @@ def run(ctx):
             cases.append('(case x%d schemarun text %s %s %s %s)' % (n, S(text), sx.dump(pols), sx.dump(store), sx.dump(req)))
     # deep diamond-shaped hierarchies: a node reachable along 2^depth paths must still be searched once (entity types, action groups)
     for depth in ((12, 40, 80) if quick else (12, 24, 40, 80, 200)):
-        text = 'entity A%d;\n' % depth
+        text = 'entity Other; entity A%d;\n' % depth        # (Other: a declared type the ladder never reaches - a search for it must exhaust the ladder, once)
         for i in range(depth - 1, -1, -1):
             text += 'entity L%d in [A%d]; entity R%d in [A%d]; entity A%d in [L%d, R%d];\n' % (i, i + 1, i, i + 1, i, i, i)
         text += 'action a%d;\n' % depth
@@ -111,7 +111,9 @@ def run(ctx):
             'permit(principal, action in [Action::"a%d", Action::"l0"], resource);' % depth, 'permit(principal in Zed::"z", action, resource);',
             'permit(principal, action == Action::"a0", resource) when { principal in A%d::"x" && action in Action::"a%d" && principal in Nope::"y" };' % (depth, depth),
             'permit(principal, action, resource) when { principal in resource || action in [Action::"a%d", Action::"nope"] };' % depth,
-            'permit(principal is A0 in A%d::"x", action, resource is A%d);' % (depth, depth))]
+            'permit(principal is A0 in A%d::"x", action, resource is A%d);' % (depth, depth),
+            'permit(principal, action == Action::"a0", resource) when { principal in Other::"o" || resource in Other::"o" };',
+            'permit(principal, action == Action::"a0", resource) when { [principal, resource].contains(Other::"o") || principal in [Other::"o", Other::"p"] };')]
         dstore = ['store', ['ent', gen.vent('A0', 'x'), ['parents', gen.vent('L0', 'x'), gen.vent('R0', 'x')], ['attrs'], ['tags']],
                   ['ent', gen.vent('Action', 'a0'), ['parents'] + [gen.vent('Action', '%s%d' % (k, i)) for i in range(depth) for k in 'lr'] +
                    [gen.vent('Action', 'a%d' % i) for i in range(1, depth + 1)], ['attrs'], ['tags']]]
